@@ -99,6 +99,11 @@ type spec struct {
 	// pauses 50 s between its messages. The consumer polls again at once after every delivery, so it is
 	// never away for a heartbeat and must not be taken offline.
 	heartbeat bool
+	// abandon: the client gives up its first poll on its side (its own time-out, shorter than the broker's) and
+	// polls again; the transport cannot tell the broker (tcp, websocket, udp: the request context lives on), so
+	// the broker still holds the first poll's responder until the second poll arrives. What the abandoned poll
+	// is answered with reaches nobody.
+	abandon bool
 }
 
 func brokerScenario(sp spec) h.Scenario {
@@ -216,6 +221,12 @@ func brokerScenario(sp spec) h.Scenario {
 					}
 					return
 				}
+				if sp.abandon {
+					vs.Go(func() {
+						e.poll("c1") // the answer of this poll is read by nobody
+					})
+					vs.Gosched()
+				}
 				for i := 0; i < sp.polls; i++ {
 					b, isNil := e.poll("c1")
 					if !isNil && len(b) == 0 {
@@ -268,6 +279,9 @@ func brokerScenario(sp spec) h.Scenario {
 		}
 		if sp.unsub {
 			ctx = "publish-racing-with-unsubscribe"
+		}
+		if sp.abandon {
+			ctx = "client-gave-up-its-poll"
 		}
 		for m, n := range ca {
 			if cd[m] < n {
@@ -426,17 +440,18 @@ func inOrder(got, want []string) bool {
 
 func main() {
 	specs := []spec{
-		{"unicast/1pub-2msg/2polls", []pubSpec{{"unicast", []string{"a1", "a2"}}}, 2, false, 2, 3, false, false, false, false},
-		{"unicast/2pub-1msg/2polls", []pubSpec{{"unicast", []string{"a1"}}, {"unicast", []string{"b1"}}}, 2, false, 2, 3, false, false, false, false},
-		{"broadcast/1pub-2msg/2polls", []pubSpec{{"broadcast", []string{"a1", "a2"}}}, 2, false, 2, 3, false, false, false, false},
-		{"multicast/1pub-2msg/1poll", []pubSpec{{"multicast", []string{"a1", "a2"}}}, 1, false, 2, 3, false, false, false, false},
-		{"unicast/1pub-2msg/1poll/resubscribe", []pubSpec{{"unicast", []string{"a1", "a2"}}}, 1, true, 2, 3, false, false, false, false},
-		{"unicast/1pub-1msg/3polls", []pubSpec{{"unicast", []string{"a1"}}}, 3, false, 2, 3, false, false, false, false},
-		{"unicast/1pub-2msg/2polls/request-scoped-contexts", []pubSpec{{"unicast", []string{"a1", "a2"}}}, 2, false, 2, 3, true, false, false, false},
-		{"unicast/2pub-1msg/2polls/request-scoped-contexts", []pubSpec{{"unicast", []string{"a1"}}, {"unicast", []string{"b1"}}}, 2, false, 2, 3, true, false, false, false},
+		{"unicast/1pub-2msg/2polls", []pubSpec{{"unicast", []string{"a1", "a2"}}}, 2, false, 2, 3, false, false, false, false, false},
+		{"unicast/2pub-1msg/2polls", []pubSpec{{"unicast", []string{"a1"}}, {"unicast", []string{"b1"}}}, 2, false, 2, 3, false, false, false, false, false},
+		{"broadcast/1pub-2msg/2polls", []pubSpec{{"broadcast", []string{"a1", "a2"}}}, 2, false, 2, 3, false, false, false, false, false},
+		{"multicast/1pub-2msg/1poll", []pubSpec{{"multicast", []string{"a1", "a2"}}}, 1, false, 2, 3, false, false, false, false, false},
+		{"unicast/1pub-2msg/1poll/resubscribe", []pubSpec{{"unicast", []string{"a1", "a2"}}}, 1, true, 2, 3, false, false, false, false, false},
+		{"unicast/1pub-1msg/3polls", []pubSpec{{"unicast", []string{"a1"}}}, 3, false, 2, 3, false, false, false, false, false},
+		{"unicast/1pub-2msg/2polls/request-scoped-contexts", []pubSpec{{"unicast", []string{"a1", "a2"}}}, 2, false, 2, 3, true, false, false, false, false},
+		{"unicast/2pub-1msg/2polls/request-scoped-contexts", []pubSpec{{"unicast", []string{"a1"}}, {"unicast", []string{"b1"}}}, 2, false, 2, 3, true, false, false, false, false},
 		{name: "unicast/1pub-1msg/polls-without-timeout", pubs: []pubSpec{{"unicast", []string{"a1"}}}, quick: 2, tho: 3, nowait: true},
 		{name: "unicast/2pub-1msg/polls-without-timeout", pubs: []pubSpec{{"unicast", []string{"a1"}}, {"unicast", []string{"b1"}}}, quick: 2, tho: 3, nowait: true},
 		{name: "broadcast/1pub-2msg/polls-without-timeout", pubs: []pubSpec{{"broadcast", []string{"a1", "a2"}}}, quick: 2, tho: 3, nowait: true},
+		{name: "unicast/1pub-1msg/2polls/client-gives-up-its-first-poll", pubs: []pubSpec{{"unicast", []string{"a1"}}}, polls: 2, quick: 2, tho: 3, abandon: true},
 		{name: "unicast/1pub-1msg/2polls/deny-another-topic", pubs: []pubSpec{{"unicast", []string{"a1"}}}, polls: 2, quick: 2, tho: 3, deny: true},
 		{name: "unicast/1pub-2msg/short-heartbeat/polls-time-out", pubs: []pubSpec{{"unicast", []string{"a1", "a2"}}}, quick: 2, tho: 3, heartbeat: true},
 		{name: "unicast/1pub-2msg/short-heartbeat", pubs: []pubSpec{{"unicast", []string{"a1", "a2"}}}, quick: 2, tho: 3, heartbeat: true},
